@@ -64,9 +64,9 @@ impl S {
 
     /// rendered by sea-query
     fn actual(&self, d: Dialect) -> String {
-        let s = sb(d);
+        let _ = sb;
         match self {
-            S::Create(t) => t.statement().build_any(s),
+            S::Create(t) => crate::ddl::render_table(TableStatement::Create(t.statement()), d),
             S::Alter(t, opts) => {
                 let mut al = Table::alter();
                 al.table(a(t));
@@ -99,9 +99,9 @@ impl S {
                         }
                     }
                 }
-                al.build_any(s)
+                crate::ddl::render_table(TableStatement::Alter(al), d)
             }
-            S::Rename(f, t) => Table::rename().table(a(f), a(t)).build_any(s),
+            S::Rename(f, t) => crate::ddl::render_table(TableStatement::Rename(Table::rename().table(a(f), a(t)).to_owned()), d),
             S::Drop(ts, ie, opt) => {
                 let mut dr = Table::drop();
                 for t in ts {
@@ -119,20 +119,20 @@ impl S {
                     }
                     None => {}
                 }
-                dr.build_any(s)
+                crate::ddl::render_table(TableStatement::Drop(dr), d)
             }
-            S::Truncate(t) => Table::truncate().table(a(t)).build_any(s),
-            S::CreateIndex(ix, t) => ix.statement(Some(t)).build_any(s),
+            S::Truncate(t) => crate::ddl::render_table(TableStatement::Truncate(Table::truncate().table(a(t)).to_owned()), d),
+            S::CreateIndex(ix, t) => crate::ddl::render_schema(&ix.statement(Some(t)), d),
             S::DropIndex(n, t, ie) => {
                 let mut dr = Index::drop();
                 dr.name(n.as_str()).table(a(t));
                 if *ie {
                     dr.if_exists();
                 }
-                dr.build_any(s)
+                crate::ddl::render_schema(&dr, d)
             }
-            S::FkCreate(fk, t) => fk.statement(t).build_any(s),
-            S::FkDrop(n, t) => ForeignKey::drop().name(n.as_str()).table(a(t)).build_any(s),
+            S::FkCreate(fk, t) => crate::ddl::render_schema(&fk.statement(t), d),
+            S::FkDrop(n, t) => crate::ddl::render_schema(ForeignKey::drop().name(n.as_str()).table(a(t)), d),
             S::TypeCreate(sc, n, labels) => {
                 let mut c = Type::create();
                 match sc {
@@ -385,6 +385,7 @@ fn spec_pool(d: Dialect, ty: &Ty) -> Vec<CS> {
         CS::Unique,
         CS::PrimaryKey,
         CS::Check(0),
+        CS::CheckLt(90),
         CS::Comment("a 'note'".into()),
     ];
     let auto_ok = match d {
@@ -518,7 +519,7 @@ fn random_stmt(rng: &mut Rng, d: Dialect) -> S {
                         let mut c = random_col(rng, d, &format!("c{i}"));
                         c.specs.retain(|s| !matches!(s, CS::Generated(..)));
                         // Postgres: specifications only; an action list must not be empty
-                        if d == Dialect::Postgres && c.specs.iter().any(|s| matches!(s, CS::Null | CS::NotNull | CS::Default(_) | CS::Unique | CS::PrimaryKey | CS::Check(_))) {
+                        if d == Dialect::Postgres && c.specs.iter().any(|s| matches!(s, CS::Null | CS::NotNull | CS::Default(_) | CS::Unique | CS::PrimaryKey | CS::Check(_) | CS::CheckLt(_))) {
                             AlterOpt::ModifyNoType(c)
                         } else {
                             AlterOpt::ModifyColumn(c)
@@ -601,7 +602,7 @@ pub fn check(ctx: &Ctx, rep: &mut Report) {
                     if n % 3 == 0 {
                         check_stmt(ctx, rep, n, d, &S::Alter("tb".into(), vec![AlterOpt::ModifyColumn(col.clone())]), "exhaustive");
                     }
-                    if d == Dialect::Postgres && n % 3 == 1 && col.specs.iter().any(|s| matches!(s, CS::Null | CS::NotNull | CS::Default(_) | CS::Unique | CS::PrimaryKey | CS::Check(_))) {
+                    if d == Dialect::Postgres && n % 3 == 1 && col.specs.iter().any(|s| matches!(s, CS::Null | CS::NotNull | CS::Default(_) | CS::Unique | CS::PrimaryKey | CS::Check(_) | CS::CheckLt(_))) {
                         check_stmt(ctx, rep, n, d, &S::Alter("tb".into(), vec![AlterOpt::ModifyNoType(col)]), "exhaustive");
                     }
                 }
@@ -622,6 +623,7 @@ pub fn check(ctx: &Ctx, rep: &mut Report) {
         if (ctx.replay.is_none() && ctx.shard != 0) || !ctx.wants(n) {
             continue;
         }
+        crate::apply::set_route_seed(ctx.seed ^ n.wrapping_mul(0x9E3779B97F4A7C15));
         check_stmt(ctx, rep, n, *d, s, label);
     }
     // (3) random statements of every kind
@@ -632,6 +634,7 @@ pub fn check(ctx: &Ctx, rep: &mut Report) {
         if !ctx.wants(n) {
             continue;
         }
+        crate::apply::set_route_seed(ctx.seed ^ n.wrapping_mul(0x9E3779B97F4A7C15));
         for d in [Dialect::Mysql, Dialect::Postgres] {
             let mut rng = ctx.rng("stmt", k * 2 + d as u64);
             let s = random_stmt(&mut rng, d);
